@@ -221,7 +221,10 @@ def run_lines(cmd, lines, cwd=None, timeout=3600, restart_on_death=True):
     return replies
 
 
-def run_driver(lines, timeout=900):
+def run_driver(lines, timeout=None):
+    # a healthy quick-tier driver run takes well under a minute; the thorough tier feeds it chunks of the campaign
+    if timeout is None:
+        timeout = 300 if os.environ.get("FX_TIER", "quick") == "quick" else 3600
     return run_lines([DRV], lines, timeout=timeout, restart_on_death=False)
 
 
